@@ -131,8 +131,10 @@ P2PKH = [_p2pkh(i) for i in range(6)]
 P2PKH_EXTRA = [_p2pkh(100 + i) for i in range(18)]     # used when a run wants little script overlap
 # ... three of them replaced by scripts whose hashX shares its first two bytes with that of P2PKH[0] (twice) and
 # of P2PKH[1] (ground once, 65 536 tries each): script hashes of one history-compaction prefix
+# ... and two by scripts whose prefix is the *next* one after that of P2PKH[0] / P2PKH[1] (consecutive prefixes)
 for _i, _h20 in enumerate(['682a3d6b61b448ab6c3d6f2481148968965b809e', 'ac5885bcdcca036d391c944a79eb54ac9d097b92',
-                           '01452e6db669c387edea181f951f02dc1147ec71']):
+                           '01452e6db669c387edea181f951f02dc1147ec71', '2a43eafd21f951ee1555ee64487d458b1682fa35',
+                           '2b54b97d43d4177f233d4982b929621b95bdf482']):
     P2PKH_EXTRA[_i] = bytes([0x76, 0xa9, 20]) + bytes.fromhex(_h20) + b'\x88\xac'
 SCRIPTS = P2PKH + [
     b'',                    # empty script
